@@ -48,3 +48,17 @@ package executor
 //@     set we = ret1
 //@   call (time.Duration).Nanoseconds
 //@     requires windowStart == ws && windowEnd == we
+
+// ---- LIMIT/OFFSET over all series (limit_transform.go)
+// Every input row is shown to the tag cursor (SameGroup) BEFORE it is counted, whether or not OFFSET skips it:
+// otherwise rows emitted later in the same chunk are labelled with the wrong series, depending on where the
+// chunk was cut. A row is emitted exactly when its ordinal lies in (offset, offset+limit].
+//@ func (*LimitTransform).SingleRowIgnoreTagLimitHelper
+//@   requires trans != nil
+//@   ghost sg int = -1
+//@   call (*LimitTransform).SameGroup
+//@     set sg = arg0
+//@   store LimitTransform.Count
+//@     requires [cursor_sees_every_row] sg == i
+//@   call (*LimitTransform).AppendPoint
+//@     requires [emit_window] arg1 == i && trans.Count > trans.offset && trans.Count <= trans.offset + trans.limit
